@@ -232,7 +232,7 @@ def run(tier, seed):
     plans = [dict(universe="B8", values=("a", "bb")), dict(universe="BC", values=("a",)), dict(universe="BLK", values=("a", "bb")),
              dict(universe="BXL", values=("a",))]
     if tier == "thorough":
-        plans = [dict(universe="B10", values=("a", "bb")), dict(universe="B4L", values=("a", "bb", "c33"))]
+        plans = plans + [dict(universe="B10", values=("a", "bb")), dict(universe="B4L", values=("a", "bb", "c33"))]
     for kw in plans:
         sysm = BinSys(seed=seed, props=(), **kw)
         res = explore(sysm, keep_states=True, state_cap=400000)
